@@ -97,6 +97,19 @@ def participants (s : St) (ns : Ns) : Target → List (Sid × Eio)
 def recipients (s : St) (ns : Ns) (t : Target) (skip : List Sid) : List (Sid × Eio) :=
   (participants s ns t).filter (fun p => !(skip.contains p.1))
 
+/-- `skip_sid` as the application passes it: nothing, one session id, or a list. -/
+inductive Skip where
+  | none
+  | one (sid : Sid)
+  | many (sids : List Sid)
+  deriving Repr
+
+/-- `if not isinstance(skip_sid, list): skip_sid = [skip_sid]` (`None` equals no session id) -/
+def Skip.toList : Skip → List Sid
+  | .none => []
+  | .one sid => [sid]
+  | .many sids => sids
+
 /-- Transport loss (`_handle_eio_disconnect`): in every namespace the session that lives on this
     transport (`sid_from_eio_sid`) is disconnected, i.e. removed from every room of that
     namespace.  A `disconnect` in one namespace never changes `sidOf` in another, so the loop over
